@@ -433,8 +433,13 @@ pub fn check_task(t: &TaskCtx, flags: Flags, problems: &[ProblemData], interps: 
 fn gen_task(r: &mut Rng, st: &mut Stats) -> Option<TaskCtx> {
     let mut o = ExtOpts::default();
     o.hostile_identifiers = false;
+    let want_spec = r.chance(1, 3);
+    if want_spec {
+        // the specification is derived from a left program without private predicates
+        o.max_privates = 0;
+    }
     let (mut texts, _sig) = gen_external(r, &o);
-    if r.chance(1, 4) {
+    if want_spec {
         // specification as left side: derived from the left program by anthem's own completion
         // (workload generation only; the oracle evaluates the formulas themselves)
         if let Some(spec) = derive_spec(&texts, r) {
@@ -470,12 +475,24 @@ pub fn derive_spec(texts: &ExtTexts, r: &mut Rng) -> Option<String> {
         let dir = ["", "", "(forward)", "(backward)", "(universal)"][r.upto(5)];
         lines.push(format!("spec{dir}: {f}."));
     }
+    // assumptions about input predicates that the sampled inputs (0, 1, 2, a) can falsify, with
+    // every direction annotation (a backward assumption on the specification side is ignored
+    // with a warning)
     for p in ug.input_predicates() {
-        if p.arity == 1 && r.chance(1, 3) {
-            let dir = ["", "(forward)", "(universal)"][r.upto(3)];
-            lines.push(format!("assumption{dir}: forall X ({}(X) -> X != b).", p.symbol));
+        if r.chance(1, 2) {
+            let dir = ["", "(forward)", "(forward)", "(universal)", "(backward)"][r.upto(5)];
+            let vars: Vec<String> = (0..p.arity).map(|i| format!("X{i}")).collect();
+            let f = if p.arity == 0 {
+                [format!("not {}", p.symbol), format!("{} or not {}", p.symbol, p.symbol)][r.upto(2)].clone()
+            } else {
+                let atom = format!("{}({})", p.symbol, vars.join(", "));
+                let cond = [format!("{} != a", vars[0]), format!("exists N$i ({} = N$i and N$i > 0)", vars[0]), format!("{} != 1", vars[0]), format!("{} = {}", vars[0], vars[0])][r.upto(4)].clone();
+                format!("forall {} ({atom} -> {cond})", vars.join(" "))
+            };
+            lines.push(format!("assumption{dir}: {f}."));
         }
     }
+    r.shuffle(&mut lines);
     let text = lines.join("\n");
     // must be accepted by anthem's own parser, otherwise fall back to the program
     text.parse::<fol::Specification>().ok()?;
